@@ -128,6 +128,8 @@ StyleReq(k) == CASE k \in {"b", "g", "h"} -> "|" [] k = "f" -> ">" [] OTHER -> "
 \* a long lexeme (macro-symbol): n characters of one class, with a requested style
 IsLong(ev) == ev.n > 0
 TextOf(ev) == IF IsLong(ev) THEN Rep(ev.s, ev.n) ELSE Text(ev.s)
+\* what analyze_scalar finds out about a text of n >= 2 equal characters does not depend on n
+AnalysisText(ev) == IF IsLong(ev) THEN Rep(ev.s, 2) ELSE Text(ev.s)
 StyleOf(ev) == IF IsLong(ev) THEN (CASE ev.y = "S" -> "'" [] ev.y = "D" -> "\"" [] OTHER -> "") ELSE StyleReq(ev.s)
 \* implicit = (plain resolves to the tag, non-plain resolves to the tag) as the Serializer computes them for str values
 Imp0(ev) == ~ev.t /\ ev.s # "e"
@@ -169,7 +171,12 @@ PutC(r, n, cls, col) ==
 Put(r, n, cls) == PutC(r, n, cls, TRUE)
 
 RECURSIVE PutTextC(_, _, _, _, _)
-PutTextC(r, t, a, b, col) == IF a > b THEN r ELSE PutTextC(PutC(r, 1, IF t[a] = "s" THEN "sp" ELSE ClassOf(t[a]), col), t, a + 1, b, col)
+\* text[a..b], one run of equal characters at a time
+PutTextC(r, t, a, b, col) ==
+  IF a > b THEN r
+  ELSE LET S == {j \in a + 1 .. b : t[j] # t[a]}
+           j == IF S = {} THEN b + 1 ELSE CHOOSE j \in S : \A k \in S : j <= k
+       IN  PutTextC(PutC(r, j - a, IF t[a] = "s" THEN "sp" ELSE ClassOf(t[a]), col), t, j, b, col)
 PutText(r, t, a, b) == PutTextC(r, t, a, b, TRUE)
 
 \* write_line_break(data): kind "BEST" = best_line_break, "NEL" = the NEL / LS / PS character of the scalar itself
@@ -202,6 +209,12 @@ Ch(t, e) == IF e <= Len(t) THEN t[e] ELSE "END"
 RECURSIVE Breaks(_, _, _, _)                  \* for br in text[start:end]: write_line_break() / write_line_break(br)
 Breaks(r, t, a, b) == IF a > b THEN r ELSE Breaks(LineBreak(r, IF t[a] = "n" THEN "BEST" ELSE "NEL"), t, a + 1, b)
 
+\* The writers look at every character, but a character that is neither a space nor a break (nor, in double quotes, an
+\* escaped one) only moves `end`: the transcriptions below jump over such runs (Skip) so that a long lexeme costs one step,
+\* not one recursion level per character.
+Skip(t, e, stops) == LET S == {j \in e + 1 .. Len(t) : t[j] \in stops} IN IF S = {} THEN Len(t) + 1 ELSE CHOOSE j \in S : \A k \in S : j <= k
+Stops == {"s"} \cup Brk
+
 RECURSIVE PlainLoop(_, _, _, _, _, _, _, _)
 PlainLoop(r, t, split, bw, s, e, spaces, breaks) ==
   IF e > Len(t) + 1 THEN r
@@ -224,7 +237,7 @@ PlainLoop(r, t, split, bw, s, e, spaces, breaks) ==
          ELSE PlainLoop(r, t, split, bw, s, e + 1, sp2, br2)
        ELSE IF ch = "END" \/ ch = "s" \/ ch \in Brk
             THEN PlainLoop(PutText(r, t, s, e - 1), t, split, bw, e, e + 1, sp2, br2)
-            ELSE PlainLoop(r, t, split, bw, s, e + 1, sp2, br2)
+            ELSE PlainLoop(r, t, split, bw, s, Skip(t, e, Stops), FALSE, FALSE)
 
 WritePlain(r, t, split, bw) ==
   LET r0 == IF r.root THEN [r EXCEPT !.open = TRUE] ELSE r IN
@@ -252,7 +265,7 @@ SingleLoop(r, t, split, bw, s, e, spaces, breaks) ==
          ELSE SingleLoop(r, t, split, bw, s, e + 1, sp2, br2)
        ELSE IF ch = "END" \/ ch = "s" \/ ch \in Brk
             THEN SingleLoop(IF s < e THEN PutText(r, t, s, e - 1) ELSE r, t, split, bw, e, e + 1, sp2, br2)
-            ELSE SingleLoop(r, t, split, bw, s, e + 1, sp2, br2)
+            ELSE SingleLoop(r, t, split, bw, s, Skip(t, e, Stops), FALSE, FALSE)
 WriteSingle(r, t, split, bw) ==
   Indicator(SingleLoop(Indicator(r, 1, TRUE, FALSE, FALSE), t, split, bw, 1, 1, FALSE, FALSE), 1, FALSE, FALSE, FALSE)
 
@@ -275,7 +288,18 @@ DoubleLoop(r, t, split, bw, au, s, e) ==
            s3 == IF fold /\ s2 < e THEN e ELSE s2
            r4 == IF fold THEN [WriteIndent(r3) EXCEPT !.ws = FALSE, !.indn = FALSE] ELSE r3
            r5 == IF fold /\ Ch(t, s3) = "s" THEN Put(r4, 1, "ascii") ELSE r4                                   \* '\' protecting a leading space
-       IN  DoubleLoop(r5, t, split, bw, au, s3, e + 1)
+           \* fast paths (same result as the steps above, taken one by one):
+           \* (1) a character that is written as it is, is not a space and does not directly follow an escape only moves `end`
+           plain == ch # "END" /\ ~esc /\ ch # "s" /\ e > s
+           next == LET S == {j \in e + 1 .. Len(t) : t[j] = "s" \/ Escaped(t[j], au)} IN IF S = {} THEN Len(t) + 1 ELSE CHOOSE j \in S : \A k \in S : j <= k
+           \* (2) a run of equal escaped characters with nothing pending: as many of them as fit before a fold can become due
+           \*     (the fold test after an escape is column - 1 > best_width) are written in one step
+           same == LET S == {j \in e + 1 .. Len(t) : t[j] # ch} IN (IF S = {} THEN Len(t) + 1 ELSE CHOOSE j \in S : \A k \in S : j <= k) - e
+           fit == IF ~split THEN same ELSE IF bw + 1 < r.col THEN 0 ELSE (bw + 1 - r.col) \div EscLen(ch)
+           batch == IF ch # "END" /\ esc /\ s >= e THEN (IF same < fit THEN same ELSE fit) ELSE 0
+       IN  IF plain THEN DoubleLoop(r, t, split, bw, au, s, next)
+           ELSE IF batch >= 2 THEN DoubleLoop(Put(r, batch * EscLen(ch), "ascii"), t, split, bw, au, e + batch, e + batch)
+           ELSE DoubleLoop(r5, t, split, bw, au, s3, e + 1)
 WriteDouble(r, t, split, bw, au) ==
   Indicator(DoubleLoop(Indicator(r, 1, TRUE, FALSE, FALSE), t, split, bw, au, 1, 1), 1, FALSE, FALSE, FALSE)
 
@@ -299,7 +323,7 @@ LiteralLoop(r, t, s, e, breaks) ==
        ELSE IF ch = "END" \/ ch \in Brk
             THEN LET r1 == PutTextC(r, t, s, e - 1, FALSE)                     \* the column is not advanced here
                  IN  LiteralLoop(IF ch = "END" THEN LineBreak(r1, "BEST") ELSE r1, t, e, e + 1, br2)
-            ELSE LiteralLoop(r, t, s, e + 1, br2)
+            ELSE LiteralLoop(r, t, s, Skip(t, e, Brk), FALSE)
 WriteLiteral(r, t, bi) ==
   LET h == Hints(t, bi)
       r1 == Indicator(r, 1 + h.len, TRUE, FALSE, FALSE)
@@ -326,7 +350,7 @@ FoldedLoop(r, t, bw, s, e, lead, spaces, breaks) ==
        ELSE IF ch = "END" \/ ch = "s" \/ ch \in Brk
             THEN LET r1 == PutText(r, t, s, e - 1)
                  IN  FoldedLoop(IF ch = "END" THEN LineBreak(r1, "BEST") ELSE r1, t, bw, e, e + 1, lead, sp2, br2)
-            ELSE FoldedLoop(r, t, bw, s, e + 1, lead, sp2, br2)
+            ELSE FoldedLoop(r, t, bw, s, Skip(t, e, Stops), lead, FALSE, FALSE)
 WriteFolded(r, t, bi, bw) ==
   LET h == Hints(t, bi)
       r1 == Indicator(r, 1 + h.len, TRUE, FALSE, FALSE)
@@ -377,17 +401,18 @@ ReaderLimit == 1024
 \* an upper bound of what a scalar occupies when written in any flow style: quotes + the longest form of every character
 RECURSIVE WrittenBound(_, _, _)
 WrittenBound(t, i, au) == IF i > Len(t) THEN 2 ELSE (IF Escaped(t[i], au) THEN EscLen(t[i]) ELSE 1) + WrittenBound(t, i + 1, au)
+WrittenBoundOf(ev, au) == IF IsLong(ev) THEN 2 + ev.n * (IF Escaped(ev.s, au) THEN EscLen(ev.s) ELSE 1) ELSE WrittenBound(Text(ev.s), 1, au)
 CheckSimpleKey(r, ev, nx) ==
   LET len == (IF ev.a \/ ev.k = "Alias" THEN AnchorLen - 1 ELSE 0)
              + (IF ev.k # "Alias" /\ HasTag(ev) THEN TagLen ELSE 0)
              + (IF ev.k = "Scalar" THEN Len(TextOf(ev)) ELSE 0)
-      an == Analyze(TextOf(ev), r.au)
-      written == IF ev.k = "Scalar" THEN len - Len(TextOf(ev)) + WrittenBound(TextOf(ev), 1, r.au) ELSE len
+      an == Analyze(AnalysisText(ev), r.au)
+      written == IF ev.k = "Scalar" THEN len - Len(TextOf(ev)) + WrittenBoundOf(ev, r.au) ELSE len
   IN  len < 128 /\ (FixD12 => written <= 1000) /\ (ev.k = "Alias" \/ (ev.k = "Scalar" /\ ~an.empty /\ ~an.multiline)
                     \/ CheckEmptySequence(ev, nx) \/ CheckEmptyMapping(ev, nx))
 
 ChooseScalarStyle(r, ev) ==
-  LET an == Analyze(TextOf(ev), r.au)  req == StyleOf(ev) IN
+  LET an == Analyze(AnalysisText(ev), r.au)  req == StyleOf(ev) IN
   IF r.canon \/ req = "\"" THEN "\""
   ELSE IF req = "" /\ Imp0(ev) /\ ~(r.skey /\ (an.empty \/ an.multiline))
           /\ ((r.flow > 0 /\ an.flowPlain) \/ (r.flow = 0 /\ an.blockPlain)) THEN ""
